@@ -452,7 +452,7 @@ class DictDecoder:
             One of the xml vars, if all search attributes match, None otherwise.
         """
         for var in xml_vars:
-            if var.local_name == key:
+            if var.local_name == key and not var.wrapper:
                 var_is_list = var.list_element or var.tokens
                 is_array = collections.is_array(value)
                 if is_array == var_is_list:
